@@ -222,6 +222,9 @@ func (self BinaryConv) handleError(ctx context.Context, fsm *types.J2TStateMachi
 		}
 	case types.ERR_OOM_FIELD:
 		{
+			// when re-entered the native code lists the unset fields again from the first one:
+			// drop the partial list, otherwise it is appended to forever
+			fsm.FieldCache = fsm.FieldCache[:0]
 			fsm.GrowFieldCache(types.J2T_FIELD_CACHE_SIZE)
 			fsm.SetPos(p)
 			return true, nil
